@@ -10,7 +10,9 @@ import Thanos.Model.Rewrite
 
   C45
     rules.match <labels> <sets>                         -> true | false
-    rules.rules <repl> <sets> <groups>                  -> groups (canonical) | -
+    rules.rules <repl> <sels> <groups>                  -> groups (canonical) | - | err
+      sels   = sel{;sel} | -        sel = set | w<set> (the same set spelled with extra white space) | E (the empty
+                                    string: does not parse, the request fails); one match[] string per sel, in order
       labels = lab{+lab} | -        lab = hexname=hexvalue=cls      cls = p|t|x|e|n (PClass)
       sets   = set{;set} | -        set = m{,m} | e (the empty set)
       m      = hexname:typ:hexvalue:tbl    typ = eq|ne|re|nre
@@ -117,6 +119,14 @@ def parseSet (s : String) : Option (List Rules.Matcher) :=
   if s = "e" then some [] else (listOf ',' s).mapM parseMatcher
 
 def parseSets (s : String) : Option (List (List Rules.Matcher)) := (listOf ';' s).mapM parseSet
+
+/-- a `match[]` string of a Rules request: `E` = the empty string (does not parse), `w<set>` = the
+    set written with extra white space, otherwise the set in its plain spelling -/
+def parseSel (s : String) : Option (Option (List Rules.Matcher)) :=
+  if s = "E" then some none else
+  match s.toList with
+  | 'w' :: rest => (parseSet (String.ofList rest)).map some
+  | _ => (parseSet s).map some
 
 def parseRule (s : String) : Option Rules.Rule :=
   match splitChar ':' s with
@@ -474,9 +484,11 @@ def handle : List String → String
     | some ls, some sets => toString (Rules.codeMatches rulesFixed rulesFresh sets ls)
     | _, _ => "bad-op"
   | ["rules.rules", repl, sets, groups] =>
-    match (listOf ',' repl).mapM hexString?, parseSets sets, (listOf '|' groups).mapM parseGroup with
-    | some repl, some sets, some gs =>
-      joinWith "|" ((Rules.rulesPipeline rulesFixed rulesFresh repl sets gs).map showGroup)
+    match (listOf ',' repl).mapM hexString?, (listOf ';' sets).mapM parseSel, (listOf '|' groups).mapM parseGroup with
+    | some repl, some sels, some gs =>
+      match Rules.rulesRequest rulesFixed rulesFresh repl sels gs with
+      | some out => joinWith "|" (out.map showGroup)
+      | none => "err"
     | _, _, _ => "bad-op"
   | _ => "bad-op"
 
